@@ -3,4 +3,4 @@ From Burrow Require Import ConfigValid.
 Require Import ExtrOcamlBasic.
 Extraction "model.ml"
   canonical_order reverse_order coordinators configure_all configured config_valid start start_old requirements
-  panic_violation have_notifiers.
+  panic_violation have_notifiers fresh_app used_app app_valid app_after app_after_history.
